@@ -1,14 +1,19 @@
 #!/venv/bin/python
-"""tools/mkmut.py <name> <relative file> <old> <new>  -> mutants/<name>.diff (repo is left unchanged)"""
-import subprocess, sys, pathlib
+"""tools/mkmut.py <name> <file relative to /repo> <old> <new>  -> mutants/<name>.diff
+The edit is made in a throw-away git worktree; /repo's working tree is never touched."""
+import subprocess, sys, pathlib, tempfile, shutil
 name, rel, old, new = sys.argv[1:5]
-p = pathlib.Path('/repo') / rel
-s = p.read_text()
 old = old.encode().decode('unicode_escape'); new = new.encode().decode('unicode_escape')
-assert s.count(old) >= 1, 'old text not found'
-p.write_text(s.replace(old, new, 1))
-d = subprocess.run(['git', '-C', '/repo', 'diff'], capture_output=True, text=True).stdout
-subprocess.run(['git', '-C', '/repo', 'checkout', '--', rel])
+w = tempfile.mkdtemp(prefix='ctm_mkmut_', dir='/tmp'); shutil.rmtree(w)
+subprocess.run(['git', '-C', '/repo', 'worktree', 'add', '-q', '--detach', w, 'HEAD'], check=True)
+try:
+    p = pathlib.Path(w) / rel
+    s = p.read_text()
+    assert s.count(old) >= 1, 'old text not found'
+    p.write_text(s.replace(old, new, 1))
+    d = subprocess.run(['git', '-C', w, 'diff'], capture_output=True, text=True).stdout
+finally:
+    subprocess.run(['git', '-C', '/repo', 'worktree', 'remove', '--force', w])
 pathlib.Path('/verif/mutants').mkdir(exist_ok=True)
 pathlib.Path(f'/verif/mutants/{name}.diff').write_text(d)
 print(name, len(d.splitlines()), 'lines')
